@@ -661,3 +661,11 @@ _thorough("C08.cover", "C08.negtwin")
 _untag("C03", "C03.pin_info.loop2")
 _slice({"C02.place.piece": 0, "C02.place.king": 1, "C02.place.castle": 0, "C02.place.pawn": 1, "C02.place.ep": 0, "C02.place.promo": 1}, 2)
 _slice({"C02.checked.move_new": 0, "C02.checked.move_mut": 1, "C02.checked.move_into": 1}, 2)
+_thorough("C10.remove_move.cap6")
+for _o in list(OBLIGATIONS):
+    if _o["name"] == "C10.remove_move.cap6":
+        d = dict(_o)
+        d.update(name="C10.remove_move.cap3", harness="iter::kani_verif_c10::cap3::c10_remove_move", tier="quick", part=(1, 3), timeout=1800,
+                 bound="iterator with <= 3 entries (all 64-bit destination sets, masks, indices)", mem_gb=4)
+        d.pop("prop_tiers", None)
+        OBLIGATIONS.append(d)
